@@ -207,7 +207,7 @@ def generate(ctx):
     # every edge value into float by plain ffi.new; plus other targets/paths at random
     for b in edges:
         cases.append(fp_case("f", "new", dict(k="float", bits=b)))
-        for _ in range(ctx.n(2, 6)):
+        for _ in range(ctx.n(2, 4)):
             t = rng.choice(TARGETS)
             path = rng.choice(STORE_PATHS + ["cast", "cast"])
             if NCOMP[t] == 2 and path in ("callarg", "callback"):
@@ -215,7 +215,7 @@ def generate(ctx):
             k = rng.choice(["float", "float", "hasfloat"])
             cases.append(fp_case(t, path, dict(k=k, bits=b)))
     pool = edges
-    for _ in range(ctx.n(700, 20000)):
+    for _ in range(ctx.n(700, 9000)):
         t = rng.choice(["f", "f", "f", "d", "fc", "dc"])
         path = rng.choice(STORE_PATHS + ["cast", "cast"])
         if NCOMP[t] == 2 and path in ("callarg", "callback"):
@@ -239,7 +239,7 @@ def generate(ctx):
             v = dict(k="other")
         cases.append(fp_case(t, path, v))
     if ctx.thorough:
-        for _ in range(3000):
+        for _ in range(1500):
             t = rng.choice(TARGETS)
             r = rng.random()
             if r < 0.7 or NCOMP[t] == 1:
@@ -252,7 +252,7 @@ def generate(ctx):
         for t in ("dc", "fc"):
             cases.append(dict(kind="api_cold", t=t, path="api_callarg", re=rng.choice(pool), im=random_double(rng)))
     # long double
-    nld = ctx.n(250, 6000)
+    nld = ctx.n(250, 2500)
     for i in range(nld):
         path = LD_PATHS[i % len(LD_PATHS)] if i < 3 * len(LD_PATHS) else rng.choice(LD_PATHS)
         cases.append(dict(kind="ld", path=path, raw=random_xld(rng)))
@@ -261,9 +261,9 @@ def generate(ctx):
             cases.append(dict(kind="ld", path="api_callarg", raw=random_xld(rng)))
     for b in edges[:: ctx.n(3, 1)]:
         cases.append(dict(kind="ld_from_double", path=rng.choice(["cast", "new", "item"]), bits=b))
-    for _ in range(ctx.n(150, 3000)):
+    for _ in range(ctx.n(150, 1500)):
         cases.append(dict(kind="ld_from_double", path=rng.choice(["cast", "new", "item"]), bits=random_double(rng)))
-    for _ in range(ctx.n(200, 4000)):
+    for _ in range(ctx.n(200, 2000)):
         cases.append(dict(kind="ld_to_double", raw=random_xld(rng)))
     for b in edges[:: ctx.n(4, 1)]:
         # a double (exact or off by the last x87 bits) seen as long double, narrowed again
